@@ -26,6 +26,10 @@ def run(ctx):
     from . import c07_struct
     c07_struct.run(ctx)
     run_panics(ctx)
+    # the board a later `go` searches is the one the previous search left behind: the answer is legal in the
+    # position last set only if every search exit has taken back every move it made (same rule as C09.R1)
+    from . import c09
+    c09.balance_rule(ctx, "C07.R6")
 
 
 def run_panics(ctx):
